@@ -39,7 +39,7 @@ func (c05) Info() core.Info {
 		Stub:     []string{"stream producer (reference serialisers; SCTE-35 sections come from the library's own encoder)", "packetiser/multiplexer", "channel (fault list)", "SimReader", "pipeline driver mirroring cli/parsefile.go (the CLI binary itself is not executed)"},
 		Assumptions: []string{
 			"decides totality on streams that are well-formed up to a few transport/storage faults, plus empty and truncated inputs; it does not sample arbitrary byte strings far from any well-formed stream",
-			"bounded memory = no single library call allocates more than 2048x the stream size + 32 MiB (cumulative heap allocation, measured with runtime/metrics to within about 2 MiB), and the live heap stays below 1 GiB",
+			"bounded memory = the live heap stays below 1 GiB during every call (watchdog) and no single call allocates more than 1 GiB + 4096x the stream size cumulatively (runtime/metrics, exact to about 2 MiB); cumulative allocation that is merely quadratic (scte35.String) is not counted as a violation",
 			"a call that makes no progress for 10 s is a hang (confirmed by replay in a fresh process)",
 		},
 		RequiredProbes: []string{"no_fault_positive_control", "section_truncated", "length_enlarged", "length_reduced", "misaligned_stream", "reached_pat", "reached_pmt", "reached_scte35", "reached_ebp", "reached_pes", "reached_filter", "reached_state", "reached_restamp", "reached_readfrom"},
@@ -415,9 +415,12 @@ func (c05) Exec(script interface{}, c *core.Ctx) {
 	c.Log("stream %x", st)
 	c.Unit("stream_bytes", int64(len(st)))
 	c.Unit("packets_on_wire", int64(len(st)/188))
-	// deliberately generous: it exists to catch unbounded growth, not to tune constants
-	// (scte35.String() alone is quadratic in the number of printed lines)
-	d := &c05Run{c: c, limit: uint64(2048*len(st) + 32<<20)}
+	// Cumulative allocation of one call. The statement bounds the memory a call uses, i.e.
+	// live memory (watched by the watchdog: 1 GiB); cumulative allocation is bounded only
+	// loosely, to catch a runaway-but-terminating loop. It must stay clear of
+	// scte35.String(), whose `str +=` building allocates quadratically in the printed
+	// lines (75 MiB for one 150-byte splice_insert with component_count damaged to 207).
+	d := &c05Run{c: c, limit: uint64(4096*len(st) + 1<<30)}
 	// positive control: no fault in the script, benign reader, PAT and PMT present
 	clean := len(s.Faults) == 0 && !parties.HasErrOps(s.Reads) && len(s.Msgs) >= 2 && s.Msgs[0].Kind == "pat" && s.Msgs[1].Kind == "pmt" &&
 		len(s.Msgs[0].PAT.Entries) > 0 && s.Msgs[0].PAT.Entries[len(s.Msgs[0].PAT.Entries)-1].PID == s.Msgs[1].PID
